@@ -8,6 +8,11 @@ import (
 )
 
 func validateMaps(env *Environment, errorSink *validation.ErrorSink) *Environment {
+	if len(errorSink.Errors) > 0 {
+		// Only perform this if all types are resolved and free of reference cycles
+		return env
+	}
+
 	Visit(env, func(self Visitor, node Node) {
 		m, ok := node.(*Map)
 		if !ok {
@@ -18,7 +23,7 @@ func validateMaps(env *Environment, errorSink *validation.ErrorSink) *Environmen
 		t := GetUnderlyingType(m.KeyType)
 		if st, ok := t.(*SimpleType); ok {
 			switch st.ResolvedDefinition.(type) {
-			case nil, PrimitiveDefinition:
+			case nil, PrimitiveDefinition, *GenericTypeParameter:
 				return
 			}
 		}
